@@ -262,6 +262,18 @@ def gen_bad_response(rng):
     if r < 0.2:
         eol = valid.find(b"\r\n")
         return valid, rng.choice(BAD_STATUS_LINES) + valid[eol:], "badstatusline", True
+    if r < 0.32:
+        # a well-formed head that promises JSON, with a body that is not: invalid JSON text, bytes that are not UTF-8
+        # (latin-1 character, multi-byte sequence cut short by the length, random high bytes), an empty body
+        body = rng.choice([b'{"a": 1', b"[1, 2,,]", b"nope", b"", b'{"caf\xe9": 1}', b'{"k": "\xe2\x82"}', b'"\xf0\x9f\x98"',
+                           bytes(rng.randrange(128, 256) for _ in range(rng.randint(1, 12))), b'{"ok": true}', b"\xff\xfe{}"])
+        ctype = rng.choice([b"application/json", b"application/json; charset=utf-8", b"application/json"])
+        if rng.random() < 0.3:
+            raw = (b"HTTP/1.1 200 OK\r\nContent-Type: " + ctype + b"\r\nTransfer-Encoding: chunked\r\n\r\n" +
+                   (b"%x\r\n" % len(body) + body + b"\r\n" if body else b"") + b"0\r\n\r\n")
+        else:
+            raw = b"HTTP/1.1 200 OK\r\nContent-Type: " + ctype + b"\r\nContent-Length: %d\r\n\r\n" % len(body) + body
+        return raw, raw, "jsonbody", False
     data, op = hg.mutate(rng, valid)
     return valid, data, op, False
 
@@ -280,7 +292,8 @@ def client_case(ctx, rng, idx, deadline):
     store = storing.Store(stamp=0.0)
     net = hg.MemNet(rng)
     conn = hg.mem_client(net, store)
-    patron = clienting.Patron(connector=conn, store=store, hostname="127.0.0.1", port=net.addr[1])
+    patron = clienting.Patron(connector=conn, store=store, hostname="127.0.0.1", port=net.addr[1],
+                              **({"dictable": True} if (op == "jsonbody" and rng.random() < 0.5) else {}))
     ss, ca = net.listener.pending.popleft()
     patron.request(method="GET", path="/x")
     queue = list(pieces)
@@ -319,7 +332,7 @@ def client_case(ctx, rng, idx, deadline):
                   lambda: wit({"outcome": outcome, "responses": [dict(r) for r in patron.responses]}))
     ctx.hit("client:" + outcome)
     ctx.hit("cop:" + op)
-    ctx.case(("client", data, cuts, hang), nontrivial=(data != valid and req_seen))
+    ctx.case(("client", data, cuts, hang), nontrivial=((data != valid or op == "jsonbody") and req_seen))
     conn.close()
 
 
